@@ -1,6 +1,7 @@
 //! vmc: bounded exhaustive exploration of rust-vmm/vhost (see /verif/DESIGN.md).
 
 mod checks;
+mod crash;
 mod daemonh;
 mod feops;
 mod feraw;
